@@ -9,8 +9,8 @@ PinnOK(c) == /\ (c.eq_type = "ODE" => c.dimx = 1)
              /\ (c.tform = "scalar" => c.eq_type = "ODE")
              /\ (c.pform = "bare" => c.it = "none" /\ c.ot = "none" /\ c.wrapper = "pinn")
              /\ (c.shared = "first" => c.nout >= 2) /\ (c.shared = "last2" => c.nout = 3)
-             /\ (c.shared \in {"lastint", "firstint"} => c.nout >= 2 /\ c.wrapper = "pinn")    \* a plain integer as output slice (jnp.s_[-1], jnp.s_[0])
-             /\ (c.wrapper = "hyper" => c.shared \in {"none", "first"} /\ c.dimx = 1)      \* hyper-networks: scalar and length-one times alike
+             /\ (c.shared \in {"lastint", "firstint"} => c.nout >= 2)    \* a plain integer as output slice (jnp.s_[-1], jnp.s_[0]), plain and hyper networks
+             /\ (c.wrapper = "hyper" => c.shared \in {"none", "first", "firstint", "lastint"} /\ c.dimx = 1)      \* hyper-networks: scalar and length-one times alike
 Spinn == [kind : {"net_struct"}, wrapper : {"spinn"}, eq_type : {"statio_PDE", "nonstatio_PDE"}, d : 1..3, r : 1..3, m : 1..2, b : 1..3,
           depth : 1..2, act : {"id", "sq"}, pform : {"full", "bare"}]
 SpinnOK(c) == (c.eq_type = "nonstatio_PDE" => c.d >= 2) /\ (c.d = 3 => c.b <= 2)
